@@ -70,6 +70,25 @@ CLAIMED["C07"] = dict(
     technique="TLA+ model checking with fault actions (TLC) + exhaustive fault injection replayed on the code + TLC trace validation",
     ref="DESIGN.md section 6 C07")
 
+CLAIMED["C08"] = dict(
+    text="TLC explores the chain design (MC_Payload: cursor over the encoded octets chained with the payload, the two "
+         "bridges, consumer buffer sizes incl. 0, source chunks, not-ready / Interrupted answers; termination under "
+         "fairness) for the 3 payload kinds x 2 consumer interfaces and prints every behaviour; the harness replays "
+         "them at scales 1..65536 and random schedules on real messages; TLC validates every consumer call against "
+         "Trace_Payload.",
+    note="Octet comparison against to_bytes()+pattern is reported by the harness as a flag (TLC cannot hold MiB); "
+         "model bound HLen=2, PLen=3; MiB scales sampled.",
+    technique="TLA+ model checking of the chain design (TLC, safety + liveness) + replay of TLC behaviours + TLC trace validation",
+    ref="DESIGN.md section 6 C08")
+CLAIMED["C15"] = dict(
+    text="TLC checks a step-cost counter of the parser design against a linear bound on every stream of the bound "
+         "(refuted at once with the pinned clone-on-close); the harness measures allocation of the real parsers on 13 "
+         "input families doubling to 1/4 MiB under a counting allocator, and TLC validates the measurements against "
+         "Trace_Cost (linear bound and doubling ratio <= 3).",
+    note="CPU observed through allocation; wall clock only as back-stop. Constants A=256 B/B, B=64 KiB from a measurement.",
+    technique="TLA+ cost invariant (TLC) + allocation traces of the real parser validated by TLC",
+    ref="DESIGN.md section 6 C15")
+
 NOT_YET = "check not built yet in this round (planned, see DESIGN.md section 6)"
 
 
